@@ -10,12 +10,14 @@ p = os.path.join(V, 'tools', 'not_claimed.json')
 if os.path.exists(p):
     na_reasons = json.load(open(p))
 checks, na, claimed = [], [], []
+# properties whose check the main session has verified on the current tree (one id per line)
+verified = set(l.strip() for l in open(os.path.join(V, 'tools', 'claimed.txt')) if l.strip())
 for pr in props:
     pid = pr['id']
     frag = os.path.join(V, 'tools', 'props', pid.lower() + '.manifest.json')
     plug = os.path.join(V, 'tools', 'props', pid.lower() + '.py')
     pv = os.path.join(V, 'coq', 'Props', pid + '.v')
-    if os.path.exists(frag) and os.path.exists(plug) and os.path.exists(pv) and pid not in na_reasons:
+    if pid in verified and os.path.exists(frag) and os.path.exists(plug) and os.path.exists(pv) and pid not in na_reasons:
         f = json.load(open(frag))
         claimed.append(pid)
         checks.append({
